@@ -238,7 +238,7 @@ def tlc(ctx, module, cfg, mode="check", workers=None, timeout=900, files=None, e
     return r
 
 
-_PRINT = re.compile(r'^<<"([A-Z]+)", (.*)>>\s*$')
+_PRINT = re.compile(r'^<<\s*"([A-Z]+)",\s*(.*?)\s*>>\s*$', re.S)
 
 
 def tla_unquote(s):
@@ -248,11 +248,45 @@ def tla_unquote(s):
 
 
 def printed(out, tag):
-    """Yields the payload text of lines PrintT(<<tag, ...>>) produced."""
-    for line in out.splitlines():
-        m = _PRINT.match(line)
-        if m and m.group(1) == tag:
-            yield m.group(2)
+    """Yields the payload text of lines PrintT(<<tag, ...>>) produced.  TLC wraps values wider than 80
+    columns over several lines: a tuple is complete when its brackets balance."""
+    lines = out.splitlines()
+    i = 0
+    start = re.compile(r'^<<\s*"([A-Z]+)",')
+    while i < len(lines):
+        m = start.match(lines[i])
+        if not m:
+            i += 1
+            continue
+        buf = lines[i]
+        j = i
+        while _depth(buf) > 0 and j + 1 < len(lines) and j - i < 400:
+            j += 1
+            buf += " " + lines[j].strip()
+        i = j + 1
+        mm = _PRINT.match(buf)
+        if mm and mm.group(1) == tag:
+            yield mm.group(2)
+
+
+def _depth(s):
+    d, instr, esc = 0, False, False
+    for ch in s:
+        if instr:
+            if esc:
+                esc = False
+            elif ch == "\\":
+                esc = True
+            elif ch == '"':
+                instr = False
+            continue
+        if ch == '"':
+            instr = True
+        elif ch in "<[{(":
+            d += 1
+        elif ch in ">]})":
+            d -= 1
+    return d
 
 
 def split_top(s):
